@@ -709,7 +709,8 @@ Theorem C12_bulk_lookup_gen :
 Proof. exact (fun K V => @bulk_lookup_gen K V). Qed.
 Print Assumptions C12_bulk_lookup_gen.
 
-(* the key-object clause, spelled out, for the loop itself: hypotheses — the
+(* (both exits, including the overflow panic: C12_extend_keeps_first_key_both below)
+   the key-object clause, spelled out, for the loop itself: hypotheses — the
    source iterator `nx` does not panic, lawful environment, well-formed
    container.  On normal return: a class that was stored keeps its key object;
    a new class gets the first supplied key object of that class. *)
@@ -819,3 +820,226 @@ Example C12_example_runs2 :
   | _ => False
   end.
 Proof. vm_compute. repeat split; reflexivity. Qed.
+
+(* ========================================================================
+   SECOND AUDIT CLOSURE (Proofs/MoreEntry.v section 11, Proofs/MoreEq.v,
+   Proofs/Dict2.v)
+
+   (5) insert_unchecked as an insertion path;  (6) the history-level theorem
+   over the EXTENDED operation set (entry, drain, iteration, extend);
+   (7) Extend with its overflow exit;  (8) the serde visitor as a whole.
+   ======================================================================== *)
+Require Import Proofs.MoreEq Proofs.MoreBulk.
+
+(* ---------------------------------------------------------------------- *)
+(* Finding 5.  insert_unchecked.  Within its contract (the map is not full, *)
+(* or a key of k's class is already stored) it IS Map::insert: the two       *)
+(* computations are equal as functions of the world (same outcome, result,   *)
+(* container, log, callback state), hence it keeps the stored key object and *)
+(* destroys the supplied one exactly like C12_insert_lawful; it cannot panic. *)
+(* ---------------------------------------------------------------------- *)
+
+Theorem C12_insert_unchecked_eq_insert_contract :
+  forall (K V Q T : Type) (E : env K V Q T) (debug : bool) (ck : K -> N) (cq : Q -> N),
+  Lawful E ck cq ->
+  forall (k : K) (v : V) (w : world K V T),
+  WF (self w) ->
+  len (self w) < cap (self w) \/ (exists i : nat, find_idx ck (ck k) (Spec.elems (self w)) = Some i) ->
+  insert_unchecked E debug k v w = insert E debug k v w.
+Proof. exact (@insert_unchecked_eq_insert_contract). Qed.
+Print Assumptions C12_insert_unchecked_eq_insert_contract.
+
+Theorem C12_insert_unchecked_spec :
+  forall (K V Q T : Type) (E : env K V Q T) (debug : bool) (ck : K -> N) (cq : Q -> N),
+  Lawful E ck cq ->
+  forall (k : K) (v : V) (w : world K V T),
+  WF (self w) ->
+  len (self w) < cap (self w) \/ (exists i : nat, find_idx ck (ck k) (Spec.elems (self w)) = Some i) ->
+  wp (insert_unchecked E debug k v)
+    (fun (r : option V) (w' : world K V T) =>
+     WF (self w') /\
+     cap (self w') = cap (self w) /\
+     Spec.elems (self w') = fst (fst (l_insert ck (Spec.elems (self w)) k v false)) /\
+     r = option_map snd (snd (l_insert ck (Spec.elems (self w)) k v false)) /\
+     logged w w'
+       match snd (l_insert ck (Spec.elems (self w)) k v false) with
+       | Some (k', _) => ev_drops (idK E k')
+       | None => []
+       end) (fun _ : world K V T => False) w.
+Proof. exact (@insert_unchecked_spec). Qed.
+Print Assumptions C12_insert_unchecked_spec.
+
+
+(* ---------------------------------------------------------------------- *)
+(* Finding 6.  All histories over the EXTENDED operation set of Dict2: the   *)
+(* 13 map operations (DBase), drain (DDrain), whole-container iteration      *)
+(* (DIterAll), entry(k).or_insert(v) (DOrInsert) and extend (DExtend).       *)
+(* The ideal dictionary's states d, df are lists of (key OBJECT, value); the *)
+(* results RItems / RBase (RPair ..) carry the objects, so `druns2 ... (mrun2 *)
+(* ... )` — the container's results are the results of a run of the ideal     *)
+(* dictionary — is a statement about object identity.  The clauses of         *)
+(* Dict2.dstep2 that fix the key policy: DOrInsert k v on a present class:    *)
+(* `r = RValOf v0 /\ d' = d` (the state, hence the stored key object, is      *)
+(* unchanged; the supplied k does not enter it); DExtend: d_extend = the fold *)
+(* of DInsert (first key object kept); DIterAll / DDrain: the items are a     *)
+(* permutation of the state itself (the stored objects); DBase o: Dict.dstep  *)
+(* (see C12_run_refines).  Abs ck m d: m is well formed, its keys have        *)
+(* pairwise different classes and its content is a permutation of d.          *)
+(* ---------------------------------------------------------------------- *)
+
+Theorem C12_run2_refines :
+  forall (K V Q T : Type) (E : env K V Q T) (debug : bool) (ck : K -> N) (cq : Q -> N),
+  Lawful E ck cq ->
+  forall (n : nat) (ops : list (@dop2 K V Q)) (w : world K V T) (d : list (K * V)),
+  Abs ck (self w) d ->
+  cap (self w) = n ->
+  exists (wf : world K V T) (df : list (K * V)),
+    mfinal2 E debug ops w = Some wf /\
+    druns2 ck cq n ops d (mrun2 E debug ops w) df /\ Abs ck (self wf) df /\ cap (self wf) = n.
+Proof. exact (@run2_refines). Qed.
+Print Assumptions C12_run2_refines.
+
+Theorem C12_run2_refines_new :
+  forall (K V Q T : Type) (E : env K V Q T) (debug : bool) (ck : K -> N) (cq : Q -> N),
+  Lawful E ck cq ->
+  forall (n : nat) (ops : list (@dop2 K V Q)) (s : T) (lg : list event),
+  let w0 := {| cb := s; log := lg; self := new_map n |} in
+  exists (wf : world K V T) (df : list (K * V)),
+    mfinal2 E debug ops w0 = Some wf /\
+    druns2 ck cq n ops [] (mrun2 E debug ops w0) df /\ Abs ck (self wf) df /\ cap (self wf) = n.
+Proof. exact (@run2_refines_new). Qed.
+Print Assumptions C12_run2_refines_new.
+
+
+(* ---------------------------------------------------------------------- *)
+(* Finding 7.  Extend / FromIterator / From<[_;N]> on BOTH exits.            *)
+(* bulk_keys ck l l' items (C12_bulk_keys_def): class by class, l' maps c to  *)
+(* bulk_view of what l mapped it to; a class stored in l keeps its key        *)
+(* OBJECT; a new class gets the first supplied key object of that class.      *)
+(* Overflow panic: items = pre ++ x :: post where x is of a new class and the *)
+(* container is full; the container then holds exactly what inserting `pre`   *)
+(* built (bulk_keys ... pre): nothing stored before lost its key object.      *)
+(* ---------------------------------------------------------------------- *)
+
+Theorem C12_bulk_keys_def :
+  forall (K V : Type) (ck : K -> N) (l l' items : list (K * V)),
+  bulk_keys ck l l' items <->
+  (forall c : N, lookup ck l' c = bulk_view ck c (lookup ck l c) items) /\
+  (forall (c : N) (k0 : K) (v0 : V),
+   lookup ck l c = Some (k0, v0) -> exists v' : V, lookup ck l' c = Some (k0, v')) /\
+  (forall (c : N) (k1 : K),
+   lookup ck l c = None ->
+   first_key ck c items = Some k1 -> exists v' : V, lookup ck l' c = Some (k1, v')).
+Proof. exact (@bulk_keys_def). Qed.
+Print Assumptions C12_bulk_keys_def.
+
+Theorem C12_extend_keeps_first_key_both :
+  forall (K V Q T : Type) (E : env K V Q T) (debug : bool) (ck : K -> N) (cq : Q -> N),
+  Lawful E ck cq ->
+  forall (nx : T -> ans * T) (items : list (K * V)) (w : world K V T),
+  (forall s : T, fst (nx s) <> Boom) ->
+  WF (self w) ->
+  wp (extend_loop E debug nx items)
+    (fun (_ : unit) (w' : world K V T) =>
+     WF (self w') /\
+     cap (self w') = cap (self w) /\ bulk_keys ck (Spec.elems (self w)) (Spec.elems (self w')) items)
+    (fun w' : world K V T =>
+     WF (self w') /\
+     cap (self w') = cap (self w) /\
+     (exists (pre : list (K * V)) (x : K * V) (post : list (K * V)),
+        items = pre ++ x :: post /\
+        bulk_keys ck (Spec.elems (self w)) (Spec.elems (self w')) pre /\
+        find_idx ck (ck (fst x)) (Spec.elems (self w')) = None /\ length (Spec.elems (self w')) = cap (self w))) w.
+Proof. exact (@extend_keeps_first_key_both). Qed.
+Print Assumptions C12_extend_keeps_first_key_both.
+
+
+(* ---------------------------------------------------------------------- *)
+(* Finding 8.  serde, the WHOLE visitor, ANY item list (repeated classes and *)
+(* classes already stored included).  decode id items (C12_decode_def): the   *)
+(* entries the deserializer creates — fresh key object id + 2i, fresh value    *)
+(* object id + 2i + 1, class and payload of the i-th item.  The visitor is    *)
+(* the item-by-item insertion l_extend of the decoded entries (first key      *)
+(* object kept, last value wins: C12_bulk_lookup_gen), it allocates exactly    *)
+(* two identities per item, and it panics exactly when l_extend overflows.    *)
+(* `honest sc`: truthful ==, no panicking callback.                           *)
+(* ---------------------------------------------------------------------- *)
+
+Theorem C12_decode_def :
+  forall (id : N) (items : list (key * vobj)),
+  decode id items =
+  match items with
+  | [] => []
+  | (k, v) :: rest =>
+      ({| kid := id; kcls := kcls k |}, {| vid := id + 1; vdat := vdat v |}) :: decode (id + 2) rest
+  end.
+Proof. exact (@decode_def). Qed.
+Print Assumptions C12_decode_def.
+
+Theorem C12_visit_map_is_extend :
+  forall (debug : bool) (sc : script) (items : list (key * vobj)),
+  honest sc ->
+  forall w : world key vobj cstate,
+  WF (self w) ->
+  wp (visit_map debug sc items)
+    (fun (_ : unit) (w' : world key vobj cstate) =>
+     WF (self w') /\
+     cap (self w') = cap (self w) /\
+     l_extend kcls (cap (self w)) (Spec.elems (self w)) (decode (next_id (cb w)) items) =
+     Some (Spec.elems (self w')) /\ next_id (cb w') = (next_id (cb w) + 2 * N.of_nat (length items))%N)
+    (fun _ : world key vobj cstate =>
+     l_extend kcls (cap (self w)) (Spec.elems (self w)) (decode (next_id (cb w)) items) = None) w.
+Proof. exact (@visit_map_is_extend). Qed.
+Print Assumptions C12_visit_map_is_extend.
+
+Theorem C12_visit_map_keys :
+  forall (debug : bool) (sc : script) (items : list (key * vobj)) (w : world key vobj cstate),
+  honest sc ->
+  WF (self w) ->
+  wp (visit_map debug sc items)
+    (fun (_ : unit) (w' : world key vobj cstate) =>
+     bulk_keys kcls (Spec.elems (self w)) (Spec.elems (self w')) (decode (next_id (cb w)) items))
+    (fun _ : world key vobj cstate => True) w.
+Proof. exact (@visit_map_keys). Qed.
+Print Assumptions C12_visit_map_keys.
+
+(* ---------------------------------------------------------------------- *)
+(* non-vacuity: concrete runs                                               *)
+(* ---------------------------------------------------------------------- *)
+
+(* insert_unchecked with an equal key on the full map m3: the same world as
+   insert; serde of three entries, two of class 6 (already stored as K3) and one
+   new class 9, into m = m3 + one spare slot: K3 keeps its place with the LAST
+   decoded value of class 6 (object 100005), class 9 gets the first decoded key
+   object of that class (100002); decoded keys 100000, 100004 and the replaced
+   values are destroyed; extend that overflows keeps what the prefix built *)
+Example C12_example_round2 :
+  let sc0 := {| sc_adv := false; sc_seed := 0; sc_fk := 0; sc_fa := 0 |} in
+  let E := env_map sc0 in
+  let m : map key vobj := {| len := 3; slots := slots m3 ++ [None] |} in
+  insert_unchecked E true (k_ 90 6) (v_ 91 0) (w_of m3) = insert E true (k_ 90 6) (v_ 91 0) (w_of m3) /\
+  decode 100000 [(k_ 0 6, v_ 0 1); (k_ 0 9, v_ 0 2); (k_ 0 6, v_ 0 3)] =
+    [(k_ 100000 6, v_ 100001 1); (k_ 100002 9, v_ 100003 2); (k_ 100004 6, v_ 100005 3)] /\
+  match visit_map true sc0 [(k_ 0 6, v_ 0 1); (k_ 0 9, v_ 0 2); (k_ 0 6, v_ 0 3)] (w_of m) with
+  | Ok _ w' => Spec.elems (self w') =
+                 [(k_ 1 5, v_ 2 7); (k_ 3 6, v_ 100005 3); (k_ 5 7, v_ 6 9); (k_ 100002 9, v_ 100003 2)] /\
+               log w' = [EvDrop 100000; EvDrop 4; EvDrop 100004; EvDrop 100001]
+  | _ => False
+  end /\
+  match extend_loop E true nx_none [(k_ 90 6, v_ 91 0); (k_ 92 9, v_ 93 0); (k_ 94 6, v_ 95 0)] (w_of m3) with
+  | Panic w' => Spec.elems (self w') = [(k_ 1 5, v_ 2 7); (k_ 3 6, v_ 91 0); (k_ 5 7, v_ 6 9)]
+  | _ => False
+  end.
+Proof. vm_compute. repeat split; reflexivity. Qed.
+
+(* a history over the extended operation set with equal-but-distinguishable
+   keys: insert K1; entry(K90).or_insert keeps K1; extend [K92] keeps K1 with
+   the new value; iteration exposes K1 *)
+Example C12_example_history2 :
+  let sc0 := {| sc_adv := false; sc_seed := 0; sc_fk := 0; sc_fa := 0 |} in
+  let ops : list (@dop2 key vobj query) :=
+    [DBase (DInsert (k_ 1 6) (v_ 2 7)); DOrInsert (k_ 90 6) (v_ 91 8);
+     DExtend [(k_ 92 6, v_ 93 9)]; DIterAll] in
+  mrun2 (env_map sc0) true ops {| cb := cs0; log := []; self := new_map 2 |} =
+    [RBase RNone; RValOf (v_ 2 7); RBase RUnit; RItems [(k_ 1 6, v_ 93 9)]].
+Proof. vm_compute. reflexivity. Qed.
